@@ -278,6 +278,7 @@ func layouts(quick bool) []layout {
 		{name: "disk-nomerge+forcemerge-before-last-operation", disk: true, cfg: map[string]interface{}{"scorchMergePlanOptions": bx.NoMergePlan}, post: "forcemerge-before-last"},
 		{name: "disk-partial-merge", disk: true, cfg: map[string]interface{}{"scorchMergePlanOptions": bx.PartialMergePlan}},
 		{name: "disk-operations-land-while-merge-in-flight", disk: true, gated: true, cfg: map[string]interface{}{"scorchMergePlanOptions": bx.AggressiveMergePlan}},
+		{name: "disk-nomerge+reopen", disk: true, cfg: map[string]interface{}{"scorchMergePlanOptions": bx.NoMergePlan}, post: "reopen"},
 		{name: "disk-nomerge+forcemerge+reopen", disk: true, cfg: map[string]interface{}{"scorchMergePlanOptions": bx.NoMergePlan}, post: "forcemerge+reopen"},
 		{name: "disk-unsafe-2-persister-workers", disk: true, cfg: unsafe2},
 		{name: "disk-unsafe-2-persister-workers-all-batches-merged-in-memory-in-one-round", disk: true, pileUp: true, cfg: unsafe2},
@@ -657,7 +658,7 @@ func Run(r *mc.Run) {
 	// operations (merge parked in flight).
 	var multi []layout
 	for _, l := range lays {
-		if l.name == "disk-partial-merge" || l.gated || l.pileUp || l.name == "disk-aggressive-merge" || l.post == "forcemerge-before-last" {
+		if l.name == "disk-partial-merge" || l.name == "disk-nomerge+reopen" || l.gated || l.pileUp || l.name == "disk-aggressive-merge" || l.post == "forcemerge-before-last" {
 			multi = append(multi, l)
 		}
 	}
